@@ -151,6 +151,15 @@ let () =
       verdict ~agree:(conc_agrees [] o) ~spec:(conc_spec_ok o) ~kf:"-"
         ~detail:"the race detector reported a data race while the clients ran concurrently (report in the harness log)"
     | [L (A "conc" :: transport :: clients); obs] -> conc transport clients obs
+    | [L (A "gate" :: transport :: nh :: L held :: clients); L (A "gobs" :: stray :: hang :: blocked :: cls)] ->
+      (* independence of progress: same model and verdicts as "conc"; "the free clients
+         did not finish while the gates were closed" counts as a hang *)
+      bump ("gate_transport_" ^ atom transport);
+      bump ("gate_handlers_" ^ atom nh);
+      bump ("gate_held_" ^ string_of_int (List.length held));
+      if bool_ blocked then bump "gate_blocked";
+      let stuck = if bool_ hang || bool_ blocked then A "1" else A "0" in
+      conc transport clients (L (A "cobs" :: stray :: stuck :: cls))
     | [L (A "cdav" :: A proto :: clients); L (A "dobs" :: hang :: cls)] ->
       (* support, no model: caldav/carddav handlers; the verdict is "concurrently = alone" *)
       bump ("cdav_" ^ proto);
